@@ -105,6 +105,8 @@ package schema
 //@   ensures panics <==> (c != nil && old(dom(n.constraints.data, ctypeOf(c))))
 //@   ensures normal && c != nil ==> dom(n.constraints.data, ctypeOf(c)) && n.constraints.data[ctypeOf(c)] == c && wfConstraints(n.constraints) && n.constraints.mx.held == 0
 //@   ensures normal && c == nil ==> n.constraints.data == old(n.constraints.data) && len(n.constraints.order) == old(len(n.constraints.order))
+//@   ensures normal && c != nil ==> (forall q constraint.Type :: q != ctypeOf(c) ==> dom(n.constraints.data, q) == old(dom(n.constraints.data, q)) && n.constraints.data[q] == old(n.constraints.data[q]))
+//@   ensures normal && c != nil ==> len(n.constraints.order) == old(len(n.constraints.order)) + 1
 
 // C01: a key is optional iff it carries optional:true
 //@ func IsOptionalNode(n)
@@ -150,3 +152,33 @@ package schema
 //@   ensures panics ==> errWF(pv) && errCodeOf(pv) == errors.ErrDuplicationOfNameOfTypes
 //@   ensures normal ==> dom(s.types, name) && s.types[name].schema == schema && s.types[name].rootFile == rootFile && s.types[name].begin == begin
 //@   ensures normal ==> (forall k string :: k != name ==> dom(s.types, k) == old(dom(s.types, k)) && s.types[k] == old(s.types[k]))
+
+// ---- branch nodes ----
+//@ interface BranchNode.Len(self)
+//@   requires isBranch(self) && ival(self) != 0
+//@   pure
+//@   ensures result == len(childrenOf(self))
+//@ interface BranchNode.Children(self)
+//@   requires isBranch(self) && ival(self) != 0
+//@   pure
+//@   ensures result == childrenOf(self)
+//@ func (ObjectNode).Len()
+//@   props C01 C08
+//@   nopanic
+//@   ensures result == len(n.children)
+//@ func (ObjectNode).Children()
+//@   props C01 C08
+//@   nopanic
+//@   ensures result == n.children
+
+//@ interface Node.Parent(self)
+//@   requires isNode(self)
+//@   pure
+//@   ensures result == parentOf(self)
+
+// ASSUMED frame of the key lookup by position (string-keyed index, not verified)
+//@ func (ObjectNode).Key(index)
+//@   props C01
+//@   trusted "key table lookup by position: only its frame is assumed"
+//@   maypanic
+//@   defines panics ==> typeis(pv, string)
